@@ -14,7 +14,7 @@
 use hx_common::sched;
 use reactive_graph::{
     computed::{ArcMemo, Memo},
-    effect::Effect,
+    effect::{Effect, RenderEffect},
     graph::untrack,
     owner::Owner,
     signal::{ArcRwSignal, RwSignal},
@@ -78,6 +78,13 @@ pub enum Def {
     Eff(Expr),
 }
 
+/// how an effect node was created (the model sees both as `eff` nodes with different initial state)
+#[derive(Clone, Copy, PartialEq)]
+pub enum EffKind {
+    Effect,
+    Render,
+}
+
 #[derive(Clone)]
 enum Handle {
     ArcSig(ArcRwSignal<i64>),
@@ -97,6 +104,8 @@ pub struct RunRec {
     /// a read returned something else than the from-scratch value at that moment
     pub glitch: Option<(usize, i64, i64)>,
     pub justified: bool,
+    /// global read clock at each tracked read (parallel to `treads`): when the subscription was (re)made
+    pub tclock: Vec<u64>,
 }
 
 #[derive(Default)]
@@ -112,6 +121,7 @@ pub struct Shared {
     /// invocations since the log was last drained, in order
     pub log: Vec<RunRec>,
     stack: Vec<RunRec>,
+    clock: u64,
 }
 
 pub type Sh = Arc<Mutex<Shared>>;
@@ -189,9 +199,12 @@ fn interp(sh: &Sh, e: &Expr) -> i64 {
             let ver = g.ver[*id];
             let expect = scratch(&g.defs, &g.env, *id);
             let defs_untracked_free = !g.defs.iter().any(|d| matches!(d, Def::Memo(b) if has_untracked(b)));
+            g.clock += 1;
+            let clock = g.clock;
             if let Some(top) = g.stack.last_mut() {
                 if *tracked {
                     top.treads.push((*id, v, ver));
+                    top.tclock.push(clock);
                 }
                 if defs_untracked_free && v != expect && top.glitch.is_none() {
                     top.glitch = Some((*id, v, expect));
@@ -251,11 +264,22 @@ fn invoke(sh: &Sh, id: usize, body: &Expr) -> i64 {
     v
 }
 
+pub struct EffSlot {
+    pub node: usize,
+    owner: Owner,
+    _effect: Option<Effect<reactive_graph::owner::LocalStorage>>,
+    render: Option<RenderEffect<i64>>,
+    pub alive: bool,
+    pub paused: bool,
+    /// run count when last paused (excused from the convergence oracle until it runs again)
+    pub paused_at_runs: Option<u64>,
+}
+
 pub struct Case {
     pub sh: Sh,
     owner: Owner,
     arena: bool,
-    _effects: Vec<Effect<reactive_graph::owner::LocalStorage>>,
+    pub effs: Vec<EffSlot>,
 }
 
 impl Case {
@@ -264,7 +288,7 @@ impl Case {
         sched::reset();
         let owner = Owner::new();
         owner.set();
-        Case { sh: Arc::new(Mutex::new(Shared::default())), owner, arena: false, _effects: vec![] }
+        Case { sh: Arc::new(Mutex::new(Shared::default())), owner, arena: false, effs: vec![] }
     }
 
     pub fn set_mode(&mut self, arena: bool) {
@@ -272,6 +296,10 @@ impl Case {
     }
 
     pub fn define(&mut self, d: Def) {
+        self.define_kind(d, EffKind::Effect)
+    }
+
+    pub fn define_kind(&mut self, d: Def, kind: EffKind) {
         let id = self.sh.lock().unwrap().defs.len();
         let sh = self.sh.clone();
         let arena = self.arena;
@@ -287,20 +315,53 @@ impl Case {
                     Handle::ArcMemo(ArcMemo::new(move |_| invoke(&sh, id, &b)))
                 }
             }
-            Def::Eff(b) => {
-                let b = b.clone();
-                let e = Effect::new(move |_: Option<i64>| invoke(&sh, id, &b));
-                self._effects.push(e);
-                Handle::Eff
-            }
+            Def::Eff(_) => Handle::Eff,
         });
-        let mut g = self.sh.lock().unwrap();
-        g.env.push(if let Def::Sig(v) = &d { *v } else { 0 });
-        g.defs.push(d);
-        g.handles.push(h);
-        g.ver.push(0);
-        g.last.push(None);
-        g.runs.push(0);
+        {
+            let mut g = self.sh.lock().unwrap();
+            g.env.push(if let Def::Sig(v) = &d { *v } else { 0 });
+            g.defs.push(d.clone());
+            g.handles.push(h);
+            g.ver.push(0);
+            g.last.push(None);
+            g.runs.push(0);
+        }
+        if let Def::Eff(b) = &d {
+            // every effect lives under its own child owner so that it can be paused / disposed alone
+            let child = self.owner.child();
+            let b = b.clone();
+            let sh = self.sh.clone();
+            let (eff, render) = child.with(|| match kind {
+                EffKind::Effect => (Some(Effect::new(move |_: Option<i64>| invoke(&sh, id, &b))), None),
+                EffKind::Render => (None, Some(RenderEffect::new(move |_: Option<i64>| invoke(&sh, id, &b)))),
+            });
+            self.effs.push(EffSlot { node: id, owner: child, _effect: eff, render, alive: true, paused: false, paused_at_runs: None });
+        }
+    }
+
+    pub fn eff_op(&mut self, node: usize, op: &str) -> bool {
+        let runs = self.sh.lock().unwrap().runs.get(node).copied().unwrap_or(0);
+        let Some(slot) = self.effs.iter_mut().find(|s| s.node == node) else { return false };
+        match op {
+            "pause" => {
+                slot.owner.pause();
+                slot.paused = true;
+                slot.paused_at_runs = Some(runs);
+            }
+            "resume" => {
+                slot.owner.resume();
+                slot.paused = false;
+            }
+            "dispose" => {
+                if slot.alive {
+                    slot.alive = false;
+                    slot.render = None;
+                    slot.owner.cleanup();
+                }
+            }
+            _ => return false,
+        }
+        true
     }
 
     pub fn set(&self, id: usize, v: i64) -> bool {
@@ -372,7 +433,7 @@ impl Case {
 
 impl Drop for Case {
     fn drop(&mut self) {
-        self._effects.clear();
+        self.effs.clear();
         self.owner.cleanup();
         sched::reset();
     }
@@ -386,7 +447,7 @@ pub fn parse_def(w: &[&str]) -> Option<Def> {
             let e = parse_expr(rest, &mut pos)?;
             (pos == rest.len()).then_some(Def::Memo(e))
         }
-        ["eff", rest @ ..] => {
+        ["eff", rest @ ..] | ["reff", rest @ ..] => {
             let mut pos = 0;
             let e = parse_expr(rest, &mut pos)?;
             (pos == rest.len()).then_some(Def::Eff(e))
